@@ -910,7 +910,7 @@ func (ex *Exec) assumeEnsures(ctx *EvalCtx, st, pre *State, c *FuncContract, sig
 			if e.Local {
 				continue
 			}
-			t := ex.evalBool(post, e)
+			t := ex.evalAssume(post, e)
 			if ctx.guard != nil {
 				t = p.Implies(ctx.guard, t)
 			}
